@@ -343,6 +343,50 @@ def run_misc_case(case):
                 out.append(('duplicate-label:%s' % arg, 'KeyError', r[0], 'a label matching several positions must raise KeyError'))
             if observe(m) != init:
                 out.append(('duplicate-label:state:%s' % arg, 'unchanged', 'changed', 'KeyError must come before anything is solved'))
+    elif what == 'defaults':
+        # every option left at its default: the three entry points still agree (a period that needs more passes than the default max_iter)
+        outcomes = {}
+        for entry in ('solve_t', 'solve_period', 'solve'):
+            m = scripted.make_scripted(list(range(50, 53)), {1: [('moved', 0)] * 120 + [('conv', 1)] * 4}, cls=scripted.Scripted)
+            m.A = [1.0, 2.0, 3.0]
+            m.B = [-1.0, -2.0, -3.0]
+            if entry == 'solve_t':
+                r = refsolve.call_outcome(m.solve_t, 1)
+            elif entry == 'solve_period':
+                r = refsolve.call_outcome(m.solve_period, 51)
+            else:
+                r = refsolve.call_outcome(m.solve, start=51, end=51)
+            outcomes[entry] = (r[0], str(m.status[1]), int(m.iterations[1]), m.sc_count('eval'))
+        if len(set(outcomes.values())) != 1:
+            out.append(('defaults:entry-points-differ', outcomes['solve_t'], outcomes, 'with every option left at its default solve_t, solve_period and solve do not do the same thing'))
+    elif what == 'repeated-label-inside':
+        # a label that occurs twice strictly inside the solved range (plain list span): solve() visits POSITIONS start..end, each once
+        span = ['a', 'b', 'b', 'c', 'd', 'e']
+        m = scripted.make_scripted(span, {p: list(NORMAL) for p in range(6)}, cls=LScripted)
+        twin = scripted.make_scripted(list(span), {p: list(NORMAL) for p in range(6)}, cls=LScripted)
+        for o in (m, twin):
+            o.A = [float(i) for i in range(6)]
+            o.B = [-float(i) for i in range(6)]
+        r = refsolve.call_outcome(m.solve, end='c', tol=scripted.TOL, max_iter=3)
+        for t in (1, 2, 3):
+            refsolve.call_outcome(twin.solve_t, t, tol=scripted.TOL, max_iter=3)
+        if observe(m) != observe(twin):
+            out.append(('repeated-label-inside:state', 'as the loop over positions 1..3', diff_obs(observe(twin), observe(m))[:3], 'solve() over a range that contains a repeated label did not visit each position once'))
+        elif r[0] != 'value' or [int(x) for x in r[2][1]] != [1, 2, 3]:
+            out.append(('repeated-label-inside:return', [1, 2, 3], repr(r[2])[:120] if r[0] == 'value' else r[0], 'returned positions'))
+    elif what == 'infeasible-explicit':
+        # an explicit start before the first solvable period / end after the last one: IndexError for that period, which stays untouched
+        for si, ei in ((0, 2), (0, 0), (1, 3), (3, 3), (0, 3)):
+            m, labels = build('range', 4, None, 'none')
+            twin, _ = build('range', 4, None, 'none')
+            r = refsolve.call_outcome(m.solve, start=labels[si], end=labels[ei], tol=scripted.TOL, max_iter=3)
+            for t in range(si, ei + 1):
+                if not (1 <= t <= 2):
+                    break  # the loop stops at the first period that cannot accommodate the lag / lead, before touching it
+                refsolve.call_outcome(twin.solve_t, t, tol=scripted.TOL, max_iter=3)
+            if r[0] != 'IndexError' or observe(m) != observe(twin):
+                out.append(('infeasible-explicit', 'IndexError at the first infeasible period, which stays untouched', [r[0], diff_obs(observe(twin), observe(m))[:2]],
+                            'solve(start=%r, end=%r) on a model with one lag and one lead' % (labels[si], labels[ei])))
     elif what == 'min-gt-max':
         m, labels = build('range', 4, None, 'none')
         init = observe(m)
@@ -505,7 +549,7 @@ def run_block(block, tier, seed):
     elif block['kind'] == 'parser':
         run_parser(acc, tier, block)
     else:
-        for what in ('empty-span', 'ambiguous-year', 'min-gt-max', 'short-span', 'duplicate-label'):
+        for what in ('empty-span', 'ambiguous-year', 'min-gt-max', 'short-span', 'duplicate-label', 'defaults', 'repeated-label-inside', 'infeasible-explicit'):
             case = {'kind': 'misc', 'what': what}
             acc.evaluations += 1
             acc.nontrivial += 1
